@@ -46,6 +46,8 @@ TRUSTED_BASE = [
     "harness/extract_srcpydict.py (Message.to_pydict / from_pydict loop bodies and loops, to_json / from_json -> Gen/SrcPyDict.lean) and lean/BpProofs/PyPreludePyDict.lean (on top of the JSON preludes; json.dumps . json.loads = the model's jsonText)",
     "harness/extract_srcleaf.py (_parse_float, _dump_enum, _parse_enum, _Duration.delta_from_json, _Timestamp.timestamp_to_json whole -> Gen/SrcLeaf.lean) and lean/BpProofs/PyPreludeLeaf.lean (f-string rendering of ints, Decimal(text) on plain decimal literals, Decimal * int exact up to 28 digits, int() truncation, datetime as wall-clock microseconds plus utcoffset, isoformat of whole seconds abstract); validated by harness/tests/check_srcleaf.py",
     "harness/extract_srctemplate.py (templates/header.py.j2 and template.py.j2 parsed with Jinja2's own parser under compiler.py's Environment options -> Gen/SrcTemplate.lean), lean/BpProofs/PyPreludeTemplate.lean (for / loop.last, if, set, |sort = stable case-insensitive sort that removes nothing, join) and Jinja2's lexer / parser; validated against real renderings by harness/tests/check_srctemplate.py",
+    "harness/extract_srcjsonmsg.py (everything around the loops of Message.to_dict / _from_dict_init / from_dict, to_json / from_json, plus the fixed template that ties the recursive knot by fuel on nesting depth -> Gen/SrcJsonMsg.lean) and lean/BpProofs/PyPreludeJsonMsg.lean",
+    "lean/BpModel/PluginSchema.lean (toSchema: how the runtime reads the classes the plugin writes) is a hand-written model, tied to the code by the correspondence stage harness/props/c03_schema.py only",
     "that each Lean statement in lean/BpProofs/Props says what the English property says",
 ]
 
